@@ -43,7 +43,7 @@ LEDGER = {
                 mc=([M("ESDTNFTTransfer,MultiESDTNFTTransfer,create,flags", hs=("u0a", "u1a"), ptoks=("4e",), pshards=(0, 1), freeze=(), rejected=False),
                      M("ESDTTransfer,MultiESDTNFTTransfer,flags,mintburn,issue", hs=("u0a", "u0b"), supply=3, rejsample=20),
                      M("create,ESDTNFTTransfer,nftflags,flags")],
-                    [M("ESDTNFTTransfer,MultiESDTNFTTransfer,create,flags", ptoks=("4e",), pshards=(0, 1), freeze=(), accsample=2), M("create,metaops,ESDTNFTTransfer,nftflags,flags", freeze=("u0a", "u1a")), M("ESDTTransfer,MultiESDTNFTTransfer,flags,mintburn,issue", freeze=("u0a", "u1a"), pshards=(0, 1), supply=3, accsample=5)]),
+                    [M("ESDTNFTTransfer,MultiESDTNFTTransfer,create,flags", ptoks=("4e",), pshards=(0, 1), freeze=(), accsample=2), M("create,metaops,ESDTNFTTransfer,nftflags,flags", accsample=4), M("ESDTTransfer,MultiESDTNFTTransfer,flags,mintburn,issue", freeze=("u0a", "u1a"), pshards=(0, 1), supply=3, accsample=5)]),
                 need=dict(unflagged_ok=5, frozen_rej=3, paused_rej=3, flag_ok=10, refund_ok=1)),
     "C05": dict(profile="kv", preds=["P05_Protected", "P05_KVExact", "P05_Frame"],
                 mc=([M("kv,ESDTTransfer,acct")],
